@@ -223,8 +223,8 @@ def single_wild(sdir, outp, m):
         os.unlink(outp)
     except OSError:
         pass
-    rc, msg = wildrun.server_link([*link_flags(out, amd, "wild"), *single_files(seq, pos, ref),
-                                   "-o", outp], cwd=sdir)
+    rc, msg = symfam.server_link([*link_flags(out, amd, "wild"), *single_files(seq, pos, ref),
+                                  "-o", outp], cwd=sdir)
     if rc == 0:
         try:
             return ("ok", normalise(symfam.observe_slots(outp, ["x"])["x"], seq, ref)), msg
@@ -293,16 +293,29 @@ def error_names(err):
     return names
 
 
+KCLASS = {"S": "s", "H": "s", "P": "s", "G": "s", "AW": "s", "AL": "l", "W": "w", "U": "w",
+          "C4": "c", "C16": "c", "DS": "d", "DW": "d"}
+
+
 def ref_pack_task(item):
+    """Links one pack with the reference linker. A failing link says "error" for the names its
+    messages mention; the others are linked again. Some GNU ld errors abort at the first name
+    (e.g. `unresolvable R_X86_64_64 relocation`): then the names whose sequence has the same
+    class pattern (strong/weak/common/dynamic) as the named one are set aside into a small pack
+    of their own, so that the rest gets its verdict in a few links."""
     root, sodir, pid, shape, pos, out, amd, cls, names = item
     d = os.path.join(root, "pk%d" % os.getpid())
     os.makedirs(d, exist_ok=True)
     linker = "ld.lld" if "L" in shape else "ld"
-    verdict, remaining, nlinks = {}, list(names), 0
-    for _attempt in range(8):
-        if not remaining:
-            break
-        files = write_pack(d, sodir, shape, pos, remaining)
+    verdict, nlinks = {}, 0
+    queue = [(list(names), True)]
+    while queue:
+        part, generalise = queue.pop(0)
+        if nlinks >= 40:
+            for nm, _s, _r in part:
+                verdict[nm] = ("none", "retries exhausted")
+            continue
+        files = write_pack(d, sodir, shape, pos, part)
         outp = os.path.join(d, "out")
         try:
             os.unlink(outp)
@@ -311,22 +324,26 @@ def ref_pack_task(item):
         rc, err = run_linker(linker, [*link_flags(out, amd, linker), *files, "-o", outp], d)
         nlinks += 1
         if rc == 0:
-            obs = symfam.observe_slots(outp, [nm for nm, _s, _r in remaining])
-            for nm, seq, ref in remaining:
+            obs = symfam.observe_slots(outp, [nm for nm, _s, _r in part])
+            for nm, seq, ref in part:
                 verdict[nm] = ("ok", normalise(obs[nm], seq, ref))
-            remaining = []
-            break
-        named = error_names(err) & {nm for nm, _s, _r in remaining}
+            continue
+        named = error_names(err) & {nm for nm, _s, _r in part}
         if not named:
-            for nm, _s, _r in remaining:
-                verdict[nm] = ("none", "linker failed without naming a member: " + err[-200:])
-            remaining = []
-            break
+            for nm, _s, _r in part:
+                verdict[nm] = ("none", "linker failed without naming a member: " + err[-120:])
+            continue
         for nm in named:
             verdict[nm] = ("err",)
-        remaining = [x for x in remaining if x[0] not in named]
-    for nm, _s, _r in remaining:
-        verdict[nm] = ("none", "retries exhausted")
+        rest = [x for x in part if x[0] not in named]
+        if generalise and len(named) <= 2:
+            sigs = {tuple(KCLASS[k] for k in x[1]) for x in part if x[0] in named}
+            suspects = [x for x in rest if tuple(KCLASS[k] for k in x[1]) in sigs]
+            if suspects:
+                rest = [x for x in rest if tuple(KCLASS[k] for k in x[1]) not in sigs]
+                queue.append((suspects, False))
+        if rest:
+            queue.insert(0, (rest, generalise))
     return pid, cls, verdict, nlinks, linker
 
 
@@ -343,7 +360,8 @@ def wild_task(item):
     for mid, m, exp in batch:
         got, msg = single_wild(sdir, outp, m)
         res.append((mid, got, "" if got == exp else msg[-300:]))
-    return res
+    kills, symfam.EXTERNAL_KILLS[0] = symfam.EXTERNAL_KILLS[0], 0
+    return res, kills
 
 
 def cls_name(v):
@@ -489,12 +507,13 @@ def main():
                     refverdict[mid] = ("none", "packed and unpacked reference verdicts differ")
         t_unpacked = time.time() - t0 - t_ref
         # ---- agreement ---------------------------------------------------------------------------
-        agreed, disagree, noverdict = [], {}, 0
+        agreed, disagree, noverdict, noverdict_reasons = [], {}, 0, {}
         disagree_samples = {}
         for mid, exp in expect.items():
             v = refverdict.get(mid, ("none", "missing"))
             if v[0] == "none":
                 noverdict += 1
+                noverdict_reasons[v[1][:60]] = noverdict_reasons.get(v[1][:60], 0) + 1
             elif v == exp:
                 agreed.append(mid)
             else:
@@ -509,7 +528,10 @@ def main():
         outcomes, n_eval, nontrivial, crashes_as_error = {}, 0, 0, 0
         cap = 600 if chk.thorough else 45         # wall cap of the wild phase
         capped, tw = None, time.time()
-        for res in vlib.pmap_unordered(wild_task, [(sdir, base, b) for b in batches(work, 64)]):
+        ext_kills = 0
+        for res, kills in vlib.pmap_unordered(wild_task,
+                                              [(sdir, base, b) for b in batches(work, 64)]):
+            ext_kills += kills
             for mid, got, msg in res:
                 n_eval += 1
                 m, exp = allm[mid], expect[mid]
@@ -546,11 +568,12 @@ def main():
         "model_vs_reference_disagree_excluded": sum(disagree.values()),
         "disagreements_by_class": dict(sorted(disagree.items(), key=lambda kv: -kv[1])),
         "disagreement_samples": list(disagree_samples.values())[:40],
-        "reference_no_verdict_excluded": noverdict, "agreed_members": len(agreed),
+        "reference_no_verdict_excluded": noverdict, "no_verdict_reasons": noverdict_reasons, "agreed_members": len(agreed),
         "expected_outcome_histogram": outcomes, "reference_packs": len(items),
         "reference_links": ref_links, "pack_validation_unpacked_members": pack_checked,
         "pack_validation_mismatches": pack_mismatch, "pack_mismatch_samples": mismatch_samples,
         "wild_crash_where_error_expected": crashes_as_error,
+        "links_repeated_after_external_kill_of_the_server": ext_kills,
         "phase_wall_s": {"reference_packs": round(t_ref, 1), "unpacked": round(t_unpacked, 1),
                          "wild": round(t_wild, 1)},
         "samples": samples, "exhaustive": capped is None, "capped": capped,
